@@ -257,6 +257,18 @@ def rule_queue(ctx: Ctx) -> None:
         and "'message_redelivery'" in unparse(he.node) and len(stmts_matching(he, "message_id = event.context.get('message_id')")) == 1
     ctx.ob("C19-2", "G8", sr, ev[0] if ev else None, ok, "a requested redelivery is an event to the queue itself naming the message; its handler delivers exactly that message")
     hef = ctx.flow(he)
+    # the timer's marker is cleared on every path on which the timer fired (stale or not): otherwise no later timeout can schedule a redelivery
+    badm = []
+    n_timer = 0
+    for p in enumerate_paths(hef, hef.cfg.entry):
+        if p.end not in ("exit",):
+            continue
+        if p.decided(lambda t: t == "event_type=='message_redelivery'") is True and p.decided(lambda t: t == "message_id") is True:
+            n_timer += 1
+            if not any(isinstance(c, ast.Call) and path_of(c.func) == "self._redelivery_scheduled.discard" and [path_of(a) for a in c.args] == ["message_id"] for n in p.nodes for e in own_exprs(n) for c in walk_scope(e)):
+                badm.append(p.describe()[:140])
+    ctx.ob("C19-2", "G2", he, "timer fired ⇒ marker cleared", n_timer >= 2 and not badm, "every path on which a redelivery timer fires clears the message's redelivery marker (a stale timer too), so the next timeout can schedule again"
+           + ("" if not badm else " — " + badm[0]))
     okg = len(hd) == 1 and hef.holds_at(node_of(hef.cfg, hd[0]), Fact("in", "message_id", "self._pending_queue"))
     ctx.ob("C19-2", "G1", he, hd[0] if hd else None, okg, "the redelivery timer delivers only a message that is still pending (a poll may have delivered it already: one timeout, one redelivery)")
     # order: poll takes the left end
@@ -477,11 +489,13 @@ def run(ctx: Ctx) -> None:
     ctx.guarded(rule_topic)
     ctx.guarded(rule_log)
     ctx.guarded(rule_group)
-    for r, k in (("C19-1", 1), ("C19-2", 12), ("C19-3", 1), ("C19-4", 4), ("C19-5", 5), ("C19-6", 1), ("C19-7", 7), ("C19-8", 6)):
+    for r, k in (("C19-1", 1), ("C19-2", 13), ("C19-3", 1), ("C19-4", 4), ("C19-5", 5), ("C19-6", 1), ("C19-7", 7), ("C19-8", 6)):
         ctx.floor(r, k)
 
 
 MUTANTS = [
+    ("stale-timer-keeps-marker", MQ, "                self._redelivery_scheduled.discard(message_id)\n                # schedule_redelivery() left the message pollable at the head\n                # of the pending queue. If a poll already picked it up (or it\n                # was acknowledged/dead-lettered meanwhile) this timer is stale.\n                if message_id not in self._pending_queue:\n                    return []\n",
+     "                if message_id not in self._pending_queue:\n                    return []\n                self._redelivery_scheduled.discard(message_id)\n", "C19-2"),
     ("deliver-after-ack", MQ, "        if self._messages.get(message_id) is not msg:\n            return None\n", "", "C19-2"),
     ("deliver-to-departed-consumer", MQ, "        if consumer not in self._consumers:\n            consumer = self._get_next_consumer()", "        if consumer is None:\n            consumer = self._get_next_consumer()", "C19-2"),
     ("redelivery-timer-unguarded", MQ, "                if message_id not in self._pending_queue:\n                    return []\n", "", "C19-2"),
